@@ -228,10 +228,22 @@ def c14(tier, seed, replay=None):
     q = tier == "quick"
     fams = [("nd", 2, None), ("nest", 2, None), ("nestq", 3, 600) if q else ("nest", 3, 6000)]
     muts = [("nest", 2, MUT_DEP)]
-    return run_agm("C14", tier, seed, fams, muts,
-                   "nd family: dependence only through a non-differentiable (notrace) primitive, x*nd(x) -> nd(x); nest family contains every "
-                   "level body that does not mention its own variable (independent output at any depth, in both modes)",
-                   ASSUME)
+    t0 = time.time()
+    v1, cov = run_agm("C14", tier, seed, fams, muts,
+                      "nd family: dependence only through a non-differentiable (notrace) primitive, x*nd(x) -> nd(x); nest family contains every "
+                      "level body that does not mention its own variable (independent output at any depth, in both modes)",
+                      ASSUME, write=False)
+    from checks import algebra
+    nd = algebra.c14_nondiff(v1)
+    cov["states"] += nd["states"]
+    cov["transitions"] += nd["transitions"]
+    cov["traces_validated_against_impl"] += nd["rows"]
+    cov["evaluations"] += nd["rows"]
+    cov["nondifferentiable_function_set"] = nd
+    rc = v1.finish()
+    vlib.write_evidence("C14", tier, seed, "model_checking", cov, ASSUME + ["the non-differentiable set is autograd's own nograd_functions list plus the "
+                        "shape/type queries; each is called with up to two templates NumPy accepts"], time.time() - t0, len(v1.violations))
+    return rc
 
 
 def c19(tier, seed, replay=None):
